@@ -38,6 +38,38 @@ FAILS = ("desc_int", "config_bogus", "trs_from_bad_ns", "tract_bad_trs",
          "colon_required_crash")
 
 
+# sort keys as plan data: a str key of the library, "fn:<name>" for a key
+# function, or a list of those (a multi-key sort)
+SORT_KEYS = ("s,r,t", "s", "t,r", "s.rev", "r.ew,t.ns", "t.sn", "r.we",
+             ["s", "t.ns"], ["r.ew", "s.rev"], ["t", "r", "s"],
+             "fn:trs", ["fn:sec", "t.sn"], ["s", "fn:trs_rev", "r.we"])
+KEY_FUNCS = {
+    "trs": lambda e: str(getattr(e, "trs", "")),
+    "trs_rev": lambda e: str(getattr(e, "trs", ""))[::-1],
+    "sec": lambda e: (getattr(e, "sec_num", None) is None,
+                      getattr(e, "sec_num", None) or 0),
+    "raises": lambda e: e.no_such_attribute_of_an_element,
+}
+LIST_FAILS = ("sort_late_bad_key", "sort_func_raises", "sort_reverse_mismatch",
+              "group_bad_sort_key", "filter_func_raises", "from_multiple_bad",
+              "trslist_bad_elem", "iter_abandoned", "sort_tracts_late_bad",
+              "records_bad_attr")
+
+
+def _mk_key(k):
+    if isinstance(k, list):
+        return [_mk_key(x) for x in k]
+    if isinstance(k, str) and k.startswith("fn:"):
+        return KEY_FUNCS[k[3:]]
+    return k
+
+
+def _gen_reverse(rng, key):
+    if isinstance(key, list) and rng.random() < 0.4:
+        return [rng.random() < 0.5 for _ in key]
+    return rng.random() < 0.2
+
+
 # --------------------------------------------------------------------------
 # generation
 # --------------------------------------------------------------------------
@@ -108,18 +140,23 @@ def gen_probe_op(rng, trs_pool=None):
         items = [rng.choice(trs_pool) if rng.random() < 0.6
                  else corpus.gen_trs_string(rng)
                  for _ in range(rng.randint(1, 6))]
+        key = copy.deepcopy(rng.choice(SORT_KEYS))
         return {"p": "trslist", "items": items,
-                "key": rng.choice(("s,r,t", "s", "t,r", "s.rev", "r.ew,t.ns",
-                                   "t.sn", "r.we")),
+                "key": key, "reverse": _gen_reverse(rng, key),
                 "then": rng.choice(("sort", "sort", "dups", "group",
                                     "contains", "group_sorted"))}
     if r < 0.97:
+        key = copy.deepcopy(rng.choice(SORT_KEYS))
         return {"p": "tractlist",
                 "texts": [corpus.gen_desc(rng) for _ in range(rng.randint(1, 2))],
-                "then": rng.choice(("sort_i", "dups", "group", "list_trs"))}
+                "key": key, "reverse": _gen_reverse(rng, key),
+                "then": rng.choice(("sort_i", "dups", "group", "list_trs",
+                                    "sort", "sort"))}
     if r < 0.985:
         return {"p": "sort_i", "text": corpus.gen_desc(rng),
-                "scramble": rng.choice(("s.rev", "t.sn,r.ew", "s,r,t"))}
+                "scramble": copy.deepcopy(rng.choice(
+                    ("s.rev", "t.sn,r.ew", "s,r,t", ["s.rev", "t.sn"],
+                     ["fn:trs_rev", "r.we"])))}
     if r < 0.993:
         return {"p": "deduce", "text": corpus.gen_desc(rng),
                 "candidates": rng.choice((
@@ -128,6 +165,18 @@ def gen_probe_op(rng, trs_pool=None):
                 "config": rng.choice((None, "ocr_scrub"))}
     return {"p": "default_lists", "trs": rng.choice(trs_pool),
             "text": corpus.gen_block(rng)}
+
+
+def _gen_fail_list(rng, trs_pool, key=None):
+    """A list operation that fails part-way (after some of its work)."""
+    good = copy.deepcopy(key if key is not None else rng.choice(SORT_KEYS))
+    good = good if isinstance(good, list) else [good]
+    items = [rng.choice((f"{rng.randint(1, 9)}n{rng.randint(1, 9)}w"
+                         f"{rng.randint(1, 9):02d}",
+                         rng.choice(trs_pool), corpus.gen_trs_string(rng)))
+             for _ in range(rng.randint(1, 5))]
+    return {"o": "fail_list", "what": rng.choice(LIST_FAILS), "items": items,
+            "key": good, "text": corpus.gen_desc(rng)}
 
 
 def _perturb(rng, op):
@@ -372,7 +421,10 @@ def gen_plan(rng):
             prior.append({"o": "mutate", "src": rng.randrange(64),
                           "how": rng.randrange(8)})
         elif k == "fail":
-            prior.append({"o": "fail", "what": rng.choice(FAILS)})
+            if rng.random() < 0.3:
+                prior.append(_gen_fail_list(rng, trs_pool))
+            else:
+                prior.append({"o": "fail", "what": rng.choice(FAILS)})
         elif k == "interrupt":
             prior.append({"o": "interrupt", "at": rng.choice(
                 (rng.randint(1, 60), rng.randint(1, 600), rng.randint(1, 2500)))})
@@ -387,6 +439,19 @@ def gen_plan(rng):
                                   for _ in twin_["items"]]
             prior.insert(rng.randint(0, len(prior)),
                          {"o": "other", "probe": twin_})
+            if rng.random() < 0.5:
+                # ... and the same operation failing at its last key
+                fl = _gen_fail_list(rng, trs_pool,
+                                    key=op_.get("key", op_.get("scramble")))
+                fl["what"] = rng.choice(("sort_late_bad_key",
+                                         "sort_func_raises",
+                                         "sort_tracts_late_bad"))
+                if rng.random() < 0.6:
+                    fl["items"] = [f"{rng.randint(1, 9)}n{rng.randint(1, 9)}w"
+                                   f"{rng.randint(1, 9):02d}"
+                                   for _ in fl["items"]]
+                    fl["text"] = "T2N-R3W Sec 4: NE/4, Sec 1: ALL"
+                prior.insert(rng.randint(0, len(prior)), fl)
     if shadow is not None and "__wrap_mc" in shadow:
         # ... while MasterConfig is toggled, and restored afterwards
         prior += [{"o": "mc_set", "ns": shadow["__wrap_mc"]["ns"],
@@ -504,10 +569,12 @@ def _run_probe_op(pytrs, op, hooks=None):
         tl = pytrs.TRSList(op["items"])
         then = op["then"]
         if then == "sort":
-            tl.custom_sort(op.get("key", "s,r,t"))
+            tl.custom_sort(_mk_key(op.get("key", "s,r,t")),
+                           op.get("reverse", False))
             return enc(tl), tl
         if then == "group_sorted":
-            return enc(tl.group_by("twprge", sort_key=op.get("key", "s"))), tl
+            return enc(tl.group_by("twprge",
+                                   sort_key=_mk_key(op.get("key", "s")))), tl
         if then == "dups":
             return [enc(tl.filter_duplicates()), enc(tl)], tl
         if then == "group":
@@ -520,6 +587,10 @@ def _run_probe_op(pytrs, op, hooks=None):
         if then == "sort_i":
             tl.custom_sort("s.rev")
             tl.custom_sort("i")
+            return enc(tl), tl
+        if then == "sort":
+            tl.custom_sort(_mk_key(op.get("key", "s,r,t")),
+                           op.get("reverse", False))
             return enc(tl), tl
         if then == "dups":
             return enc(tl.filter_duplicates(method="lots_qqs")), tl
@@ -542,7 +613,7 @@ def _run_probe_op(pytrs, op, hooks=None):
                 enc(sl.filter_duplicates())], tl
     if p == "sort_i":
         d = pytrs.PLSSDesc(op["text"])
-        d.sort_tracts(op["scramble"])
+        d.sort_tracts(_mk_key(op["scramble"]))
         mid = [t.orig_index for t in d.tracts]
         d.sort_tracts("i")
         return [mid, [t.orig_index for t in d.tracts], enc(d)], d
@@ -718,6 +789,44 @@ def _do_fail(pytrs, what):
         pytrs.Tract("NE/4", config="s").set_twprgesec(1, 2, 3, default_ew="q")
 
 
+def _do_fail_list(pytrs, op):
+    what = op["what"]
+    good = _mk_key(op["key"])
+    sl = pytrs.TRSList([s if s is not None else "" for s in op["items"]])
+    if what == "sort_late_bad_key":
+        sl.custom_sort(key=good + ["zz"])
+    elif what == "sort_func_raises":
+        sl.custom_sort(key=good + [KEY_FUNCS["raises"]])
+    elif what == "sort_reverse_mismatch":
+        sl.custom_sort(key=good + ["s"], reverse=[True])
+    elif what == "group_bad_sort_key":
+        sl.group_by("twprge", sort_key=good + ["zz"])
+    elif what == "filter_func_raises":
+        sl.filter(KEY_FUNCS["raises"])
+    elif what == "from_multiple_bad":
+        pytrs.TractList.from_multiple(pytrs.PLSSDesc(op["text"]), 5)
+    elif what == "trslist_bad_elem":
+        sl.extend(5)
+    elif what == "iter_abandoned":
+        d = pytrs.PLSSDesc(op["text"], parse_qq=True)
+        it = d.tracts.iter_to_dict("trs", "desc", "lots_qqs")
+        next(it, None)
+        it2 = iter(d.tracts)
+        next(it2, None)
+        del it, it2
+        raise RuntimeError("abandoned")      # counts as a failing call
+    elif what == "sort_tracts_late_bad":
+        d = pytrs.PLSSDesc(op["text"])
+        d.sort_tracts(key=good + [rng_free_choice(op)])
+    elif what == "records_bad_attr":
+        pytrs.PLSSDesc(op["text"]).tracts_to_dict(5)
+
+
+def rng_free_choice(op):
+    """'zz' or a raising key function, decided by the plan's data alone."""
+    return "zz" if len(op["items"]) % 2 else KEY_FUNCS["raises"]
+
+
 def _mc(pytrs):
     return [pytrs.MasterConfig.default_ns, pytrs.MasterConfig.default_ew]
 
@@ -851,6 +960,13 @@ def run(prior, probe, mc_between=None, with_prior=True, mc_script=None):
                         bump("fail_did_not_raise:" + op["what"])
                     except Exception:  # noqa
                         bump("failing_calls")
+                elif o == "fail_list":
+                    try:
+                        _do_fail_list(pytrs, op)
+                        bump("fail_did_not_raise:" + op["what"])
+                    except Exception:  # noqa
+                        bump("failing_calls")
+                        bump("failing_list_calls")
                 elif o == "interrupt":
                     pending_interrupt = op["at"]
             except SimInterrupt:
